@@ -81,6 +81,9 @@ structure Inst where
   /-- has produced an output of its own since it was constructed / copied (a copy inherits `last`, which `cached()`
   needs, but two instances are only compared on outputs of their own) -/
   own : Bool := true
+  /-- long-run mode (`long id cap`): only the most recent `cap` inputs are kept as history; the history-based clauses
+  are then asserted for the windowed kinds only (whose specification reads the last `N ≤ cap/2` inputs) -/
+  long : Option Nat := none
   /-- a `filter` call was abandoned half-way by a panicking sample comparison (`fp`): the state is whatever the
   unwinding left, the model does not follow it; only the ledger clauses still apply -/
   poisoned : Bool := false
@@ -90,6 +93,18 @@ later items again (not fused) — the pipe must poll it on every pull and add no
 inductive PSrc where
   | expr (e : Sources.Expr V)
   | burst (items : List (Option V))
+
+/-- the first stage of a long-run source pipe: `take(left, incr(cur, step))` (`left = none`: endless) -/
+structure LSrc where
+  cur : V
+  step : V
+  left : Option Nat
+
+def LSrc.pull (s : LSrc) : Option V × LSrc :=
+  match s.left with
+  | some 0 => (none, s)
+  | some (n + 1) => (some s.cur, { s with cur := s.cur + s.step, left := some n })
+  | none => (some s.cur, { s with cur := s.cur + s.step })
 
 structure PipeInst where
   shape : PShape
@@ -101,6 +116,13 @@ structure PipeInst where
   pulls : Nat := 0
   /-- has been finalised at least once (`palive` reports on the most recent `pfin`) -/
   finalised : Bool := false
+  /-- long-run mode (`plong`): the pipe is followed step by step through the current states of its (harness-defined)
+  stages in pipeline order — by `Pipes.run_eq_seq` / `pulls_eq` / `finalize_eq` that is what every nesting computes —
+  instead of being re-run from its input log on every operation -/
+  long : Bool := false
+  lleaves : List (PipeRegistry.Own V) := []
+  lsrc : Option LSrc := none
+  lsink : Option (SinkModels.Sk V) := none
 
 structure DState where
   insts : List (Nat × Inst) := []
@@ -110,6 +132,8 @@ structure DState where
   f64s : List (Nat × FInst Float) := []
   f32s : List (Nat × FInst Float32) := []
   i64s : List (Nat × FInst I64) := []
+  /-- sinks at machine integers (the arithmetic sinks in "the sample type's own arithmetic": truncating division) -/
+  isinks : List (Nat × SinkModels.Sk I64) := []
   lineNo : Nat := 0
   caseNo : Nat := 0
   nOps : Nat := 0
@@ -264,6 +288,13 @@ def specFilter (base : Nat) : St V → List (List V) → List V → List Clause
   | .cache i _, h, y => specFilter base i h y
   | .unit i, h, y => specFilter base i h y
   | _, _, _ => []
+
+/-- kinds whose specification reads only the last `N` inputs -/
+partial def windowKind : St V → Bool
+  | .median _ => true | .mean _ _ => true | .max _ _ => true | .min _ _ => true | .bounds _ _ _ => true
+  | .convolve _ _ => true | .delay _ _ => true
+  | .cache i _ => windowKind i | .unit i => windowKind i
+  | _ => false
 
 /-! ### guts / accessors / config rendering -/
 
@@ -523,19 +554,25 @@ def stepFilterOp (d : DState) (op : String) (toks impl : List String) : Option (
           | _ => none)
       | st => st.filter xs
     let hist := inst.hist ++ [xs]
+    let hist := match inst.long with | some cap => hist.drop (hist.length - cap) | none => hist
     match res with
     | none =>
       let d := d.flag "panic"
       some (report d op { model := "PANIC", impl := implS, kind := kindName inst.st })
     | some (st', y) =>
       let clauses := match implOut with
-        | some yi => if inst.nospec then [] else specFilter inst.base st' hist yi
+        | some yi => if inst.nospec || (inst.long.isSome && !windowKind st') then [] else specFilter inst.base st' hist yi
         -- a panic the model predicts (exact division by zero shows as `err` in the model's output) is agreement
         | none => if y.any (fun v => match v with | .err => true | _ => false) then []
                   else [clauseP "no-panic" false (renderOut (some y))]
       let d := (stepFlags inst.st st' hist).foldl DState.flag d
       let d := d.put id { inst with st := st', hist := hist, last := some implOut, own := true }
       some (report d op { model := renderOut (some y), impl := implS, clauses := clauses, kind := kindName inst.st })
+  | ["long", id, cap] => do
+    let id ← id.toNat?
+    let inst ← d.get id
+    let d := (d.put id { inst with long := some (← cap.toNat?) }).flag "long-run"
+    some (report d op { model := "ok", impl := implS })
   | ["acc", id, which] => do
     let id ← id.toNat?
     let inst ← d.get id
